@@ -709,6 +709,45 @@ def validate_spAssign (key : List KeyEntry) (rhs : List Nat) : Except Reject Uni
 
 /-! ### explicit copies of three guards as they were at the pinned commit (for the record) -/
 
+/-! ### argument forms (second mutation study) -/
+
+/-- `ktensor.ttv`: `tt_dimscheck`, then `np.atleast_1d(v.squeeze()).shape != (shape[d],)` for every used multiplicand -/
+def validate_ttvM (a : TtvMArgs) : Except Reject Unit :=
+  match dimscheck19 a.shape.length (some a.vshapes.length) a.dims a.excl with
+  | .error e => .error e
+  | .ok r => rejectIf (!(r.pairs.all fun p => squeezed1 (a.vshapes.getD p.1 []) == [a.shape.getD p.2 0]))
+
+/-- `khatrirao` of arrays of any order: after the optional reversal `all(len(m.shape) == 2)`, then the column test -/
+def validate_khatriraoND (shapes : List (List Nat)) (rev : Bool) : Except Reject Unit :=
+  if !((if rev then shapes.reverse else shapes).all fun s => s.length == 2) then .error .reject
+  else validate_khatrirao (shapesAsMats shapes) rev
+
+/-- `sptensor.__init__`: `subs is None and vals is None` is the empty tensor, `subs is None or vals is None` raises -/
+def validate_sptensorGiven (subs vals : Bool) : Except Reject Unit :=
+  if !subs && !vals then .ok () else rejectIf (!subs || !vals)
+
+/-- `sptenmat.__init__` (non-empty arrays): without a mode split nothing else may be given; with one a missing
+array is replaced by an empty one and the count test `vals.size == nsubs` refuses the other -/
+def validate_sptenmatGiven (subs vals dims : Bool) : Except Reject Unit :=
+  if !dims then rejectIf (!(!subs && !vals)) else rejectIf (subs != vals)
+
+/-- `isvector(a)`: `a.ndim == 1 or (a.ndim == 2 and (a.shape[0] == 1 or a.shape[1] == 1))`, asserted by `from_vector` -/
+def validate_isVector (s : List Nat) : Except Reject Unit :=
+  rejectIf (!(s.length == 1 || (s.length == 2 && (s.getD 0 0 == 1 || s.getD 1 0 == 1))))
+
+/-- `parse_shape(ndarray)`: `shape.squeeze().ndim > 1` raises (order 0 is the single number, order 1 the tuple) -/
+def validate_shapeArray (s : List Nat) : Except Reject Unit :=
+  rejectIf (decide ((s.filter fun e => e != 1).length > 1))
+
+
+/-- `tensor.tenfun`: `len(inputs) == 1 and nfunin == 2` is the binary case; otherwise `nfunin != 1` raises -/
+def validate_tenfunArity (nargs others : Nat) : Except Reject Unit :=
+  if others == 1 && nargs == 2 then .ok () else rejectIf (nargs != 1)
+
+/-- `sptensor._set_subscripts`: `newsubs.shape[1] < self.ndims` raises before anything is matched or written -/
+def validate_setSubsWidth (N width : Nat) : Except Reject Unit := rejectIf (decide (width < N))
+
+
 namespace Pinned
 
 /-- pinned `tt_dimscheck` after forming the array: only the sign test -/
